@@ -277,6 +277,7 @@ impl From<io::Error> for LpError {
 }
 
 /// frame = one length byte n (0..=254) followed by n payload bytes
+#[derive(Clone)]
 struct LpCodec {
     /// use the provided `Decoder::decode_eof` instead of the codec's own
     default_eof: bool,
@@ -342,6 +343,7 @@ impl Encoder<Vec<u8>> for LpCodec {
 }
 
 /// counts the Decoder calls Framed makes (a codec implementation observes them)
+#[derive(Clone)]
 struct Counting<C> {
     inner: C,
     calls: usize,
@@ -361,11 +363,15 @@ impl<C: Decoder> Decoder for Counting<C> {
 
 /// One of the state-preserving conversions of `Framed`, chosen by `k`: all of them must carry both buffers and the
 /// flags over unchanged.
-fn convert<T, U>(f: Framed<T, U>, k: usize) -> Framed<T, U> {
-    match k % 3 {
+fn convert<T, U: Clone>(f: Framed<T, U>, k: usize) -> Framed<T, U> {
+    match k % 4 {
         0 => Framed::from_parts(f.into_parts()),
         1 => f.into_map_io(|io| io),
-        _ => f.into_map_codec(|c| c),
+        2 => f.into_map_codec(|c| c),
+        _ => {
+            let c = f.codec_ref().clone();
+            f.replace_codec(c)
+        }
     }
 }
 
@@ -380,7 +386,7 @@ fn io_item(e: &io::Error, decode_tag: &str) -> String {
     }
 }
 
-fn run_c13<C: Decoder + Unpin>(
+fn run_c13<C: Decoder + Unpin + Clone>(
     codec: C,
     conv: bool,
     toks: &[&str],
@@ -506,7 +512,7 @@ fn run_c14<C, I>(
     classify: fn(&<C as Encoder<I>>::Error) -> &'static str,
 ) -> String
 where
-    C: Decoder + Encoder<I>,
+    C: Decoder + Encoder<I> + Clone,
     <C as Encoder<I>>::Error: From<io::Error>,
 {
     let int = |t: &str| t[1..].parse::<usize>().expect("number");
